@@ -453,6 +453,10 @@ var vfEpisodeKinds = []string{"success", "peer-fail", "malformed-cfg", "wrong-ty
 
 func TestVF_C05(t *testing.T) {
 	writeToClipboard = func(buf []byte) {} // the clipboard side effect is outside the streams
+	if os.Getenv("VF_PROCS") != "" {
+		vfRunCases(t, "C05", vfPtyCases(), 2, 200*time.Second)
+		return
+	}
 	var cases []vfCase
 	ns := vfPick(320, 4000)
 	for i := 0; i < ns; i++ {
